@@ -9,10 +9,11 @@ import SymmModel.Driver.HeapH
 import SymmModel.Driver.Heap2H
 import SymmModel.Driver.DTypeFlowH
 import SymmModel.Driver.CheckH
+import SymmModel.Driver.RandH
 open Lean SymmModel.Driver
 
 /-- plug-in handlers of the self-contained property models are tried in order -/
-def handlers : List (String → Json → Option (D Json)) := [handleCore, handleSym, handleHam, handleTrunc, handleFermiOps, handleReshape, handleCache, handleHeap, handleHeap2, handleDFlow, handleCheck]
+def handlers : List (String → Json → Option (D Json)) := [handleCore, handleSym, handleHam, handleTrunc, handleFermiOps, handleReshape, handleCache, handleHeap, handleHeap2, handleDFlow, handleCheck, handleRand]
 
 def handleLine (line : String) : Json :=
   match Json.parse line with
